@@ -199,7 +199,7 @@ func c01EvilCapture(c net.Conn, initiator bool, prologue []byte, mk func(static 
 	return recv()
 }
 
-// forged payload: claim 1..3 key of that name (type kt), 4 junk, 5 empty;
+// forged payload: claim 1..3 key of that name (type kt), 4 junk, 5 empty, 10*v+k key k re-encoded non-canonically;
 // signer 1..3 (that key signs), 4 junk, 5 empty; sm 0 prefix++static, 1 prefix++another static, 2 static only
 func c01ForgedPayload(kt int, claim, signer, sm int, static []byte) []byte {
 	var keyBytes, sig []byte
@@ -208,6 +208,19 @@ func c01ForgedPayload(kt int, claim, signer, sm int, static []byte) []byte {
 		keyBytes, _ = crypto.MarshalPublicKey(c01Keys[kt][claim-1].GetPublic())
 	case 4:
 		keyBytes = []byte{0xff, 0xff, 0xff, 0xff, 0x0f, 0x01, 0x02, 0x03}
+	}
+	if claim >= 10 {
+		// key claim%10 in a valid but non-canonical protobuf serialization: the canonical form is
+		// 08 <type> 12 <len> <data>
+		canon, _ := crypto.MarshalPublicKey(c01Keys[kt][claim%10-1].GetPublic())
+		switch claim / 10 {
+		case 1: // an unknown field (number 15, varint 7) appended
+			keyBytes = append(append([]byte{}, canon...), 0x78, 0x07)
+		case 2: // the two fields in the other order
+			keyBytes = append(append([]byte{}, canon[2:]...), canon[:2]...)
+		default: // the Type varint in non-minimal form
+			keyBytes = append([]byte{0x08, 0x80 | canon[1], 0x00}, canon[2:]...)
+		}
 	}
 	switch signer {
 	case 1, 2, 3:
@@ -709,23 +722,24 @@ func c01Generate(t *testing.T, rnd *verifh.Rand, types []int, thorough bool) []c
 				if finit == 1 {
 					victim, vrole = 2, 1
 				}
-				for claim := 1; claim <= 5; claim++ {
+				for _, claim := range []int{1, 2, 3, 4, 5, 13, 23, 33, 11, 22, 31} {
 					for _, sg := range [][2]int{{3, 0}, {3, 1}, {3, 2}, {1, 1}, {2, 1}, {4, 0}, {5, 0}} {
 						for setting := 0; setting < 4; setting++ {
 							for _, pro := range []int{0, 1} {
 								hs := c01Side{id: victim, pro: pro}
+								ck := claim % 10 // the key that is claimed, if any
 								switch setting {
 								case 0: // expects whoever is claimed (or B/A when nothing valid is claimed)
-									hs.exp = claim
-									if claim > 3 {
+									hs.exp = ck
+									if ck > 3 {
 										hs.exp = 3 - victim
 									}
 								case 1:
-									hs.exp = 1 + claim%3
+									hs.exp = 1 + ck%3
 								case 2:
 									hs.exp = 0
 								case 3:
-									hs.exp, hs.dis = claim%4, 1
+									hs.exp, hs.dis = ck%4, 1
 								}
 								if pro != 0 || hs.dis != 0 || rnd.Bool() {
 									hs.sess = 1
